@@ -412,8 +412,10 @@ class ImmediateOperand(Operand):
             if self.value.int > (0x80 if self.value.is_negative() else 0xFF):
                 raise OperandTypeError("[{}] does not fit in an 8-bit immediate value".format(self.operand_string))
         additional = self.value
-        if self.instruction.is_16_bit and self.value.is_numeric() and not self.value.is_negative():
-            additional = NumericValue(self.value.int, size_hint=4)
+        if self.value.is_numeric():
+            # the width of an immediate operand is set by the instruction, not by how the value was written
+            signed_value = -self.value.int if self.value.is_negative() else self.value.int
+            additional = NumericValue(signed_value, size_hint=4 if self.instruction.is_16_bit else 2)
         return CodePackage(
             op_code=NumericValue(self.instruction.mode.imm),
             additional=additional,
